@@ -2,14 +2,14 @@ package main
 
 // Environment models beyond the spike's (time, timers, quiescence, ...).
 
-type timerObj struct {
-	at    int64
-	ch    *chanObj
-	fired bool
-	fn    value
+func (e *Engine) setupModels() {
+	e.setupWS()
+	e.setupFmt()
+	e.setupJSON()
+	e.setupCtx()
+	e.setupTime()
+	e.setupAtomic()
 }
-
-func (e *Engine) setupModels() { e.setupWS() }
 
 // quiesce lets every other thread run until none can move; returns the number of
 // non-daemon threads that are then still blocked.
@@ -24,8 +24,13 @@ func (e *Engine) quiesce() int {
 			}
 			return true
 		}
-		if !pred() {
-			e.block(pred, "rt.Quiesce")
+		for {
+			if !pred() {
+				e.block(pred, "rt.Quiesce")
+			}
+			if !e.fireTimer() {
+				break
+			}
 		}
 	}
 	n := 0
